@@ -164,8 +164,13 @@ def run_slice(name, tier, stats):
                          metatag="eh-" + name, coverage=False)
         model_violated = None
         if r.violated and sd["strict"]:
+            # the model (whose constants are measured from the real types) breaks the property: enumerate the
+            # whole slice anyway (verdicts travel with the cases) so that the real code is replayed on all of it
             model_violated = r.violated
-            log("NOTE slice %s: TLC reports model invariant %s violated; replaying what was enumerated so far" % (name, r.violated))
+            log("NOTE slice %s: TLC reports model invariant %s violated; enumerating the slice in report mode" % (name, r.violated))
+            r = vlib.run_tlc("MC_ExportHist", "MC_ExportHist_report.cfg", workers=12, timeout=3000, env={"VERIF_UNIVERSE": const},
+                             tags=("CASE", "MBAD"), metatag="ehr-" + name)
+            vlib.tlc_must_succeed(r, "MC_ExportHist (report) " + name)
         elif r.rc != 0 or r.error:
             vlib.tlc_must_succeed(r, "MC_ExportHist " + name)
         cases = r.payloads("CASE")
@@ -240,7 +245,16 @@ def describe_steps(steps):
 
 
 def prop_of(tag, confl):
-    return TAG_PROP[tag] if TAG_PROP[tag] else confl
+    """the properties a verdict tag belongs to: a declaration lost or torn inside a shared file is both
+    a lossless-merge (C05) and a never-lost (C06) matter"""
+    if TAG_PROP[tag] is None:
+        return {confl}
+    ps = {TAG_PROP[tag]}
+    if tag == "C06l_lost" and confl == "C05":
+        ps.add("C05")
+    if tag == "C05w_malformed":
+        ps.add("C06")
+    return ps
 
 
 def types_in(steps):
@@ -261,9 +275,10 @@ def run_property(prop, slices, tier, level="model_checking", extra_assumptions=(
             samples.append({"slice": name, "history": describe_steps(r["steps"]), "returns": r["rets"], "verdicts": r["bad"]})
         for r in res:
             for b in r["bad"]:
-                p = prop_of(b["tag"], r["confl"])
-                if p != prop:
-                    others[p] = others.get(p, 0) + 1
+                ps = prop_of(b["tag"], r["confl"])
+                if prop not in ps:
+                    for p in ps:
+                        others[p] = others.get(p, 0) + 1
                     continue
                 st = r["steps"][b["step"] - 1] if b["step"] <= len(r["steps"]) else {}
                 desc = {"prop": prop, "slice": name, "tag": b["tag"], "history": describe_steps(r["steps"]),
